@@ -864,6 +864,7 @@ def configs(tier):
         out.append(("uccgd", dict(mol="H2t", mapping=mp, utd=utd), 0, 1, reference_bits(4, 2, 0, mp, utd)))
     out.append(("puccd", dict(mol="H2"), 1, 4, [1, 0]))
     out.append(("puccd", dict(mol="H4"), 2, 8, [1, 1, 0, 0]))
+    out.append(("puccd", dict(mol="H4f"), 1, 4, [1, 0, 0]))      # frozen core: 3 active orbitals, ONE active pair (the molecule holds two)
     for nq, layers, rot in ((2, 1, "euler"), (2, 2, "real"), (3, 1, "real"), (3, 2, "euler"), (3, 1, "euler"), (2, 2, "euler")):
         if not T and (nq, layers, rot) in ((3, 1, "euler"), (2, 2, "euler")):
             continue
